@@ -65,6 +65,7 @@ def main():
     patch, demo = os.path.join(src, 'patch.diff'), os.path.join(src, 'demo.py')
     meta = json.load(open(os.path.join(src, 'meta.json'))) if os.path.exists(os.path.join(src, 'meta.json')) else {}
     head = sh(['git', '-C', '/repo', 'rev-parse', 'HEAD'])[1].strip()
+    clean()        # a killed earlier evaluation may have left its patch applied: checkout would refuse
     sh(['git', '-C', WT, 'checkout', '-q', '--detach', head])
     clean()
     out = {'property': a.pid, 'k': a.k, 'repo_head': head, 'author_meta': meta}
